@@ -5,10 +5,11 @@ sys.path.insert(0, VERIF)
 ALL = ["C%02d" % i for i in range(1, 21)]
 REASONS = json.load(open(os.path.join(VERIF, "harness", "not_applicable.json"))) if os.path.exists(os.path.join(VERIF, "harness", "not_applicable.json")) else {}
 checks, na = [], []
+READY = json.load(open(os.path.join(VERIF, "harness", "ready.json")))   # properties whose check is finished and reviewed
 for pid in ALL:
     path = os.path.join(VERIF, "harness", "props", pid + ".py")
     props = os.path.join(VERIF, "lean", "BitstringModel", "Props", pid + ".lean")
-    if not (os.path.exists(path) and os.path.exists(props)) or pid in REASONS:
+    if not (os.path.exists(path) and os.path.exists(props)) or pid in REASONS or pid not in READY:
         na.append({"property_id": pid, "reason": REASONS.get(pid, "check not built yet in this session (see DESIGN.md §10 build order); no claim is made")})
         continue
     src = open(path).read()
